@@ -449,7 +449,7 @@ def handle (d : DState) (line : String) : Except String (DState × String) := do
                               chooseReal := (argD a "choose" (if sv.chooseReal then "real" else "pad")) = "real" }
           let permFn : Nat → Option (List Nat) := fun k => (sv.perms.lookup k).getD none
           let chooseFn : Nat → Bool := fun _ => sv.chooseReal
-          let r := match sv.kind with
+          let r : Run (SState Rat) := match sv.kind with
             | Kind.vi => viSolve p.P sv.c sv.γ sv.thr sv.test sv.f k sv.st
             | Kind.rvi => rviSolve p.P sv.c sv.γ sv.ε sv.f k sv.st
             | Kind.periodic => periodicSolve p.P sv.c sv.γ sv.ε sv.period sv.clear sv.f k sv.st
@@ -461,12 +461,20 @@ def handle (d : DState) (line : String) : Except String (DState × String) := do
             | Kind.periodic => minMargin (periodicMeasureNext p.P sv.c sv.γ sv.period) (periodicStep p.P sv.c sv.γ sv.ε sv.period) sv.ε k sv.st none
             | Kind.semi => minMargin (fun s => some (semiMeasure p.P sv.c sv.γ sv.test permFn chooseFn s)) (semiStep p.P sv.c sv.γ sv.thr sv.test permFn chooseFn) sv.thr k sv.st none
             | Kind.pi => none
+          -- the documented convergence measure of the last sweep this call performed (compared with the measure the solver logs)
+          let before (step : SState Rat → SState Rat × Bool) : SState Rat := (List.range (r.sweeps - 1)).foldl (fun s _ => (step s).1) sv.st
+          let lastM : Option Rat := if r.sweeps = 0 then none else match sv.kind with
+            | Kind.vi => some (viMeasure p.P sv.c sv.γ sv.test (before (viStep p.P sv.c sv.γ sv.thr sv.test)))
+            | Kind.rvi => some (rviMeasure p.P sv.c sv.γ (before (rviStep p.P sv.c sv.γ sv.ε)))
+            | Kind.periodic => periodicMeasureNext p.P sv.c sv.γ sv.period (before (periodicStep p.P sv.c sv.γ sv.ε sv.period))
+            | Kind.semi => some (semiMeasure p.P sv.c sv.γ sv.test permFn chooseFn (before (semiStep p.P sv.c sv.γ sv.thr sv.test permFn chooseFn)))
+            | Kind.pi => none
           let sv' := { sv with st := r.state }
           let d := match sv.dir with
             | none => d
             | some k => setDir d k ((getDir d k).applySaves sv.maxKeep r.saves)
           pure ({ d with solvers := (sid, sv') :: d.solvers.filter (·.1 ≠ sid) },
-                fState r.state r.converged r.sweeps r.saves ++ s!" minmargin={fOptRat mm}")
+                fState r.state r.converged r.sweeps r.saves ++ s!" minmargin={fOptRat mm} modelmeasure={fOptRat lastM}")
     | _ => throw s!"unknown command {cmd}"
 
 partial def loop (h : IO.FS.Stream) (out : IO.FS.Stream) (d : DState) : IO Unit := do
